@@ -475,14 +475,27 @@ def wi_ensures(s):
     tcr = s.ctx.ghost.get("transform_coordinates_results", [])
     if s.mode == "verify":
         # data flow: pixel (r, c) of `image` is splatted at row coordinate xa[r,c] / column coordinate ya[r,c] of transform_coordinates(knots)
-        ok = sp is not None and sp is sp2 and len(tcr) == 1 and all(isinstance(a, SymArr) and a.ndim == 2 for a in (sp.xa, sp.ya, sp.values))
+        called = sp is not None and sp is sp2 and all(isinstance(a, SymArr) for a in (sp.xa, sp.ya, sp.values))
+        ok = called and len(tcr) == 1 and all(a.ndim == 2 for a in (sp.xa, sp.ya, sp.values))
         r, c = I("r"), I("c")
+
+        def numel(a):
+            n = z3.IntVal(1)
+            for dd in a.shape:
+                n = n * lift(dd)
+            return n
+
+        # the weight-total clause is carried by warp_image itself: the number of points handed to bilinear_kde (coordinates AND
+        # values) is the number of image pixels -- no pixel is dropped, masked out or duplicated before the splat
+        flow0 = [("every-image-pixel-is-handed-to-bilinear_kde(number-of-coordinates=number-of-values=H*W)", False if not called else AND(
+            numel(sp.xa) == lift(H) * lift(W), numel(sp.ya) == lift(H) * lift(W), numel(sp.values) == lift(H) * lift(W)))]
         inr = AND(r >= 0, r < lift(H), c >= 0, c < lift(W))
         flow = [("pixel(r,c)-is-splatted-at-(xa[r,c],ya[r,c])-of-transform_coordinates", False if not ok else AND(
                     lift(sp.xa.shape[0]) == lift(H), lift(sp.xa.shape[1]) == lift(W),
                     forall([r, c], implies(inr, AND(rterm(sp.xa.fn(r, c)) == rterm(tcr[0][0].fn(r, c)), rterm(sp.ya.fn(r, c)) == rterm(tcr[0][1].fn(r, c)),
                                                     rterm(sp.values.fn(r, c)) == rterm(s.image.fn(r, c))))))),
-                ("kde-width-and-pad-value-are-the-interpolator's", False if not ok else AND(rterm(sp.kde_sigma) == rterm(o.fields["kde_sigma"]), rterm(sp.pad_value) == rterm(o.fields["pad_value"])))]
+                ("kde-width-and-pad-value-are-the-interpolator's", False if not called else AND(rterm(sp.kde_sigma) == rterm(o.fields["kde_sigma"]), rterm(sp.pad_value) == rterm(o.fields["pad_value"])))]
+        flow = flow0 + flow
     return flow + [
         ("image-on-the-canvas", AND(lift(img.shape[0]) == lift(S1), lift(img.shape[1]) == lift(S2))),
         ("weights-on-the-canvas", AND(lift(wts.shape[0]) == lift(S1), lift(wts.shape[1]) == lift(S2))),
@@ -1090,7 +1103,7 @@ def rt_warp(inp):
     H, W, K = inp["H"], inp["W"], inp.get("K", 2)
     rows, cols = inp.get("rows", H + 5), inp.get("cols", W + 8)
     rng = np.random.default_rng(inp.get("seed", 0))
-    th = rng.uniform(0, 2 * np.pi)
+    th = np.deg2rad(inp["theta"]) if inp.get("theta") is not None else rng.uniform(0, 2 * np.pi)
     fast, slow = np.array([np.sin(-th), np.cos(-th)]), np.array([np.cos(-th), -np.sin(-th)])
     it = DriftInterpolator(input_shape=(H, W), output_shape=(rows, cols), scan_fast=fast, scan_slow=slow, pad_value=0.0, kde_sigma=0.0)
     r = np.arange(H)[:, None] - (H - 1) / 2
@@ -1121,6 +1134,9 @@ def fam_warp(tier="quick", seed=0):
         for K in KNOTS:
             i += 1
             yield dict(H=H, W=W, K=K, seed=seed + i)
+            # a canvas no larger than the image at an oblique angle: part of the rotated image lies off the canvas (those
+            # pixels wrap around in bilinear_kde and still carry unit weight)
+            yield dict(H=H, W=W, K=K, rows=H, cols=W, theta=(45.0, 90.0, 120.0)[i % 3], seed=seed + i)
 
 
 def rt_align(inp):
@@ -1361,7 +1377,7 @@ BOUNDED = [
     Bounded.from_rt("transform_rows/transform_coordinates on arbitrary straight knot lines", rt_rows, fam_rows, "8 shapes incl. 1xW / Hx1, 1..4 knots, random lines", klass=klass_rows),
     Bounded.from_rt("preprocess geometry and weight totals end to end", rt_geometry, fam_geometry,
                     "6 shapes (10 thorough) x 6 angles (11) x 3 pad fractions (5) x 1..4 knots, stacks of 2..4", klass=klass_geometry),
-    Bounded.from_rt("warp_image deposits pixel (r,c) at the coordinates of transform_coordinates", rt_warp, fam_warp, "4 shapes x 1..4 knots, random angle, 2 pixels each"),
+    Bounded.from_rt("warp_image deposits pixel (r,c) at the coordinates of transform_coordinates", rt_warp, fam_warp, "4 shapes x 1..4 knots, random angle on a padded canvas and oblique angle on a canvas of the image size, 2 pixels each"),
     Bounded.from_rt("bilinear_kde / warp_image weight totals for arbitrary coordinates", rt_weights, fam_weights,
                     "4 point grids x 4 canvases x 3 sigmas x 3 batch sizes, coordinates up to 6 canvas sizes outside"),
     Bounded.from_rt("align_translation bookkeeping with prescribed shifts (cross-correlation replaced inside the checker process)", rt_align_bookkeeping, fam_align_bookkeeping,
